@@ -1,8 +1,25 @@
-"""MANIFEST.setup_cmd: regenerate Gen from /repo, build the Lean library and the driver from clean."""
-import subprocess, sys
+"""MANIFEST.setup_cmd: regenerate Gen from /repo, then build the driver and the property modules of every claimed check.
+A module that does not build is reported by the check of the property it belongs to; setup itself only fails when the
+Lean toolchain cannot build anything."""
+import json
+import os
+import subprocess
+import sys
+
 from harness import common, translate
+
 _, errs = translate.regenerate()
 for k, e in errs.items():
     print("setup: translator:", k, e)    # the per-property checks will report it
-r = subprocess.run(["lake", "build"], cwd=common.LEAN)
-sys.exit(r.returncode)
+man = json.load(open(os.path.join(common.VERIF, "MANIFEST.json")))
+targets = ["driver"] + [f"UberjobModel.Props.{c['property_id']}" for c in man["checks"]]
+r = subprocess.run(["lake", "build"] + targets, cwd=common.LEAN)
+if r.returncode != 0:
+    ok = 0
+    for t in targets:
+        rr = subprocess.run(["lake", "build", t], cwd=common.LEAN, capture_output=True, text=True)
+        ok += rr.returncode == 0
+        if rr.returncode != 0:
+            print("setup: target failed:", t)
+    sys.exit(0 if ok else 1)
+sys.exit(0)
